@@ -4,11 +4,12 @@ CONSTANTS
   W = 3
   Back = {1, 2}
   Fwd = {0, 1, 2, 3, 4, 5}
+  AbsLow = {1, 2}
   Pairings = {"A", "B"}
   Foreign = {"X"}
   Iids = {1, 2}
   Vals = {1, 2}
-  Starts = {2, 5}
+  Starts = {2, 65534}
   KeyAtStart = {TRUE, FALSE}
   MaxSteps = 3
 PROPERTY OnlyAuthenticFresh
